@@ -1,0 +1,32 @@
+//go:build verif
+// +build verif
+
+package geojson
+
+// Hooks for the /verif correspondence harness (build tag "verif" only).
+
+// VerifSetChildIndex rebuilds the cached rectangle, emptiness and child index
+// of a collection object as Parse would with IndexChildren = threshold.
+// It reports whether o is a collection.
+func VerifSetChildIndex(o Object, threshold int) bool {
+	opts := *DefaultParseOptions
+	opts.IndexChildren = threshold
+	var c *collection
+	switch g := o.(type) {
+	case *MultiPoint:
+		c = &g.collection
+	case *MultiLineString:
+		c = &g.collection
+	case *MultiPolygon:
+		c = &g.collection
+	case *GeometryCollection:
+		c = &g.collection
+	case *FeatureCollection:
+		c = &g.collection
+	default:
+		return false
+	}
+	c.tree = nil
+	c.parseInitRectIndex(&opts)
+	return true
+}
